@@ -11,6 +11,7 @@ from ..harness import Sub, Violation, run_world, crash_is_violation
 from ..oracles import globalarr as ga
 
 PROPERTY = "C02"
+HANG_SECONDS = 40.0
 RULE = ("(box) exhaustive: every 1<=p<=n<=N through the real Layout constructor for every rank coordinate, "
         "checked against pure tiling predicates (starts[0]=0, ends[r]=starts[r+1], last end=n, lengths in "
         "{floor(n/p),ceil(n/p)} with exactly n mod p long ones, shape/size/max_block_shape/mpi_starts/"
